@@ -1,9 +1,10 @@
 """C04 — sync2.Map is linearizable to an ordinary map (sequential half: all single-goroutine call sequences; concurrent half: see C04conc)."""
-from .. import scriptprop
+from .. import scriptprop, traceprop
 from . import C04seq
 
 ID = "C04"
-RULE = ("sequential: histories of load/store/loadorstore/loadanddelete/delete/range over 5 keys (small, so that promotion misses >= len(dirty), expunge and unexpunge happen constantly), "
+RULE = ("concurrent: API-level histories under the controlled scheduler (every schedule with <= 2 preemptions of a catalogue of 2-3 goroutine programs; random programs and schedules) "
+        "and native runs (also under the race detector), judged by the Lean driver for linearizability to map[K]V and for the Range predicate; sequential: histories of load/store/loadorstore/loadanddelete/delete/range over 5 keys (small, so that promotion misses >= len(dirty), expunge and unexpunge happen constantly), "
         "the internal layout (read/amended/dirty/misses/expunged/nil) observed through the verif hook after every call; non-trivial = at least one promotion-relevant miss and one delete")
 ASSUMPTIONS = ["data-race freedom in the Go-memory-model sense is not modelled (the model is sequentially consistent over atomic steps)",
                "atomic.Value, sync.Mutex and unsafe.Pointer loads are modelled by contract"]
@@ -13,4 +14,29 @@ def explore(core, rng, tier, seed, search=False):
     n, nops = (500, 40) if tier == "quick" else (20000, 200)
     scripts = [C04seq.history(rng, nops, rng.choice([2, 5, 5, 9])) for _ in range(n)]
     nt = lambda sc: any(l.startswith(("loadanddelete", "delete")) for l in sc) and any(l.startswith("load ") for l in sc)
-    return scriptprop.explore(core, ID, scripts, nontrivial=nt)
+    r = scriptprop.explore(core, ID, scripts, nontrivial=nt)
+    # ---- concurrent half: executions of the real code under the controlled scheduler and natively, judged by the Lean driver
+    lim = 2500 if tier == "quick" else 300000
+    nr = 600 if tier == "quick" else 30000
+    cmds = [["sched", "map", "exhaustive", 1, lim, 2, "api"], ["sched", "map", "random", rng.randrange(1 << 30), nr, 2, "api"],
+            ["mapstress", rng.randrange(1 << 30), nr]]
+    t = traceprop.explore(core, ID + "conc", cmds, min_events=4, judge="ObjLin",
+                          race_cmds=[["mapstress", rng.randrange(1 << 30), 300 if tier == "quick" else 5000]])
+    return merge(r, t)
+
+
+def merge(r, t):
+    """sequential scripts first, then trace scenarios (not shrinkable)"""
+    n = len(r["scripts"])
+    blocks = [[l.split(" => ")[0] for l in t["trace_of"](i)] for i in range(t["n_scripts"])]
+    r["shrinkable_upto"] = n
+    r["scripts"] = r["scripts"] + blocks
+    r["bad"] = r["bad"] + [(b[0] + n,) + tuple(b[1:]) for b in t["bad"]]
+    for k in ("lines", "ok", "cex", "corr", "int"):
+        r["summary"][k] = str(int(r["summary"].get(k, 0)) + int(t["summary"].get(k, 0)))
+    r["summary"]["tags"].update(t["summary"]["tags"])
+    r["n_scripts"] += t["n_scripts"]
+    r["distinct_nontrivial"] += t["distinct_nontrivial"]
+    r["stats"]["concurrent"] = t["stats"]
+    r["samples"] = r["samples"][:2] + t["samples"][:2]
+    return r
